@@ -166,10 +166,18 @@ func TestProp_Tokens(t *testing.T) {
 					}
 					flags["use-with-failing-token-removal"] = true
 				}
+				// the caller may ask the library not to store the node record (it keeps
+				// records elsewhere): the token is spent by the use all the same
+				skipStorage := !removalFails && rapid.IntRange(0, 5).Draw(t, "callerSkipsStorage") == 0
+				fopts := w.O(nodeenrollment.WithMaximumServerLedActivationTokenLifetime(life))
+				if skipStorage {
+					fopts = append(fopts, nodeenrollment.WithSkipStorage(true))
+					flags["use-with-skip-storage"] = true
+				}
 				var resp *types.FetchNodeCredentialsResponse
 				var err error
 				pv, _ := vkit.Guard(func() {
-					resp, err = registration.FetchNodeCredentials(w.Ctx, w.Store, req, w.O(nodeenrollment.WithMaximumServerLedActivationTokenLifetime(life))...)
+					resp, err = registration.FetchNodeCredentials(w.Ctx, w.Store, req, fopts...)
 				})
 				w.Rec.Fault = nil
 				got := pv == nil && err == nil && resp != nil && len(resp.EncryptedNodeCredentials) > 0
@@ -180,7 +188,7 @@ func TestProp_Tokens(t *testing.T) {
 				loadable := x.status == "outstanding" && x.corrupt == ""
 				expect := loadable && unexpired && who == "fresh-key"
 				x.uses++
-				h := fmt.Sprintf("use[%s,%s,token %s age=%v corrupt=%q%s] -> %v", lname, who, x.status, now.Sub(x.created).Round(time.Second), x.corrupt, map[bool]string{true: ",storage fails to remove the token record", false: ""}[removalFails], got)
+				h := fmt.Sprintf("use[%s,%s,token %s age=%v corrupt=%q%s] -> %v", lname, who, x.status, now.Sub(x.created).Round(time.Second), x.corrupt, map[bool]string{true: ",storage fails to remove the token record", false: ""}[removalFails]+map[bool]string{true: ",caller skips storage", false: ""}[skipStorage], got)
 				hist = append(hist, h)
 				if x.uses > 1 {
 					flags["re-use"] = true
@@ -218,6 +226,14 @@ func TestProp_Tokens(t *testing.T) {
 					if x.corrupt == "" && x.extended == "" && !removalFails {
 						vkit.Violate(t, prop, "C06/valid-token-refused", fmt.Sprintf("an unused, unexpired token presented by a fresh key was refused: %v", err), detail)
 					}
+				}
+				if got && skipStorage {
+					// credentials were handed out; the node record is the caller's business
+					x.status = "used"
+					if rawTok(x.id) != nil {
+						vkit.Violate(t, prop, "C06/token-record-survives-use", "the token record is still in storage after it yielded credentials (the caller had asked not to store the node record)", detail)
+					}
+					return
 				}
 				if got {
 					// single use + bookkeeping
